@@ -1,6 +1,861 @@
 import CoolerModel.Model.FileModel
-/-! Property C15 — file-level operations preserve content and touch nothing else. -/
 namespace Cooler.C15
 open Cooler.FileModel
 
+/-! ### `under` -/
+
+theorem under_iff (P k : Path) : under P k = true ↔ ∃ r, k = P ++ r := by
+  induction P generalizing k with
+  | nil => simp [under]
+  | cons a P ih =>
+    cases k with
+    | nil => simp [under]
+    | cons b k =>
+      simp only [under, Bool.and_eq_true, decide_eq_true_eq, ih, List.cons_append, List.cons.injEq]
+      constructor
+      · rintro ⟨rfl, r, rfl⟩; exact ⟨r, rfl, rfl⟩
+      · rintro ⟨r, rfl, rfl⟩; exact ⟨rfl, r, rfl⟩
+
+theorem under_append (P r : Path) : under P (P ++ r) = true := (under_iff _ _).2 ⟨r, rfl⟩
+
+theorem under_refl (P : Path) : under P P = true := by simpa using under_append P []
+
+theorem under_trans {P Q k : Path} (h1 : under P Q = true) (h2 : under Q k = true) : under P k = true := by
+  obtain ⟨r, rfl⟩ := (under_iff _ _).1 h1
+  obtain ⟨s, rfl⟩ := (under_iff _ _).1 h2
+  exact (under_iff _ _).2 ⟨r ++ s, by simp⟩
+
+theorem under_drop {P k : Path} (h : under P k = true) : P ++ k.drop P.length = k := by
+  obtain ⟨r, rfl⟩ := (under_iff _ _).1 h
+  simp
+
+/-! ### association lists -/
+
+theorem lookupK_append (a b : Entries) (k : Path) :
+    lookupK (a ++ b) k = (lookupK a k).orElse (fun _ => lookupK b k) := by
+  induction a with
+  | nil => simp [lookupK]
+  | cons p a ih =>
+    obtain ⟨k', e⟩ := p
+    simp only [List.cons_append, lookupK]
+    split <;> simp [ih]
+
+theorem lookupK_filter (q : Path → Bool) (es : Entries) (k : Path) :
+    lookupK (es.filter (fun p => q p.1)) k = if q k then lookupK es k else none := by
+  induction es with
+  | nil => simp [lookupK]
+  | cons p es ih =>
+    obtain ⟨k', e⟩ := p
+    simp only [List.filter_cons]
+    by_cases hq : q k' = true
+    · simp only [hq, if_true, lookupK]
+      by_cases hk : k' = k
+      · subst hk; simp [hq]
+      · simp [hk, ih]
+    · simp only [hq, lookupK]
+      by_cases hk : k' = k
+      · subst hk; simp [hq, ih]
+      · simp [hk, ih]
+
+theorem lookupK_removeUnder (P : Path) (es : Entries) (k : Path) :
+    lookupK (removeUnder P es) k = if under P k then none else lookupK es k := by
+  unfold removeUnder
+  rw [lookupK_filter (fun k => !under P k)]
+  cases under P k <;> simp
+
+theorem lookupK_map_prefix (D : Path) (new : Entries) (k : Path) :
+    lookupK (new.map (fun p => (D ++ p.1, p.2))) k =
+      if under D k then lookupK new (k.drop D.length) else none := by
+  induction new with
+  | nil => simp [lookupK]
+  | cons p new ih =>
+    obtain ⟨r, e⟩ := p
+    simp only [List.map_cons, lookupK, ih]
+    by_cases hu : under D k = true
+    · obtain ⟨s, rfl⟩ := (under_iff _ _).1 hu
+      simp [hu]
+    · have : ¬ D ++ r = k := fun h => hu (h ▸ under_append D r)
+      simp [hu, this]
+
+theorem lookupK_putRegion (es : Entries) (D : Path) (new : Entries) (k : Path) :
+    lookupK (putRegion es D new) k =
+      if under D k then lookupK new (k.drop D.length) else lookupK es k := by
+  unfold putRegion
+  rw [lookupK_append, lookupK_map_prefix, lookupK_removeUnder]
+  by_cases hu : under D k = true
+  · simp [hu]
+  · simp [hu]
+
+theorem lookupK_putRegion_under (es : Entries) (D : Path) (new : Entries) (r : Path) :
+    lookupK (putRegion es D new) (D ++ r) = lookupK new r := by
+  rw [lookupK_putRegion]; simp [under_append]
+
+theorem lookupK_putRegion_off (es : Entries) (D : Path) (new : Entries) (k : Path)
+    (h : under D k = false) : lookupK (putRegion es D new) k = lookupK es k := by
+  rw [lookupK_putRegion]; simp [h]
+
+theorem lookupK_getRegion (es : Entries) (S r : Path) :
+    lookupK (getRegion es S) r = lookupK es (S ++ r) := by
+  unfold getRegion
+  induction es with
+  | nil => simp [lookupK]
+  | cons p es ih =>
+    obtain ⟨k, e⟩ := p
+    simp only [List.filter_cons]
+    by_cases hu : under S k = true
+    · obtain ⟨s, rfl⟩ := (under_iff _ _).1 hu
+      simp only [hu, if_true, List.map_cons, lookupK, ih, List.drop_left]
+      by_cases hs : s = r
+      · subst hs; simp
+      · have : ¬ S ++ s = S ++ r := fun h => hs (List.append_cancel_left h)
+        simp [hs, this]
+    · have : ¬ k = S ++ r := fun h => hu (h ▸ under_append S r)
+      simp [hu, lookupK, this, ih]
+
+theorem lookupK_setEntry (es : Entries) (k : Path) (e : Entry) (k' : Path) :
+    lookupK (setEntry es k e) k' = if k = k' then some e else lookupK es k' := by
+  unfold setEntry
+  simp only [lookupK]
+  by_cases h : k = k'
+  · simp [h]
+  · simp only [h, if_false]
+    rw [lookupK_filter (fun q => decide (q ≠ k))]
+    have : k' ≠ k := fun h' => h h'.symm
+    simp [this]
+
+theorem lookupK_shiftOids (d : Nat) (es : Entries) (k : Path) :
+    lookupK (shiftOids d es) k = (lookupK es k).map (Entry.shift d) := by
+  unfold shiftOids
+  induction es with
+  | nil => simp [lookupK]
+  | cons p es ih =>
+    obtain ⟨k', e⟩ := p
+    simp only [List.map_cons, lookupK]
+    split <;> simp [ih]
+
+/-! ### files -/
+
+theorem getFile_filter (q : String → Bool) (fs : FS) (g : String) :
+    getFile (fs.filter (fun p => q p.1)) g = if q g then getFile fs g else none := by
+  induction fs with
+  | nil => simp [getFile]
+  | cons p fs ih =>
+    obtain ⟨g', h'⟩ := p
+    simp only [List.filter_cons]
+    by_cases hq : q g' = true
+    · simp only [hq, if_true, getFile]
+      by_cases hk : g' = g
+      · subst hk; simp [hq]
+      · simp [hk, ih]
+    · simp only [hq, getFile]
+      by_cases hk : g' = g
+      · subst hk; simp [hq, ih]
+      · simp [hk, ih]
+
+theorem getFile_setFile (fs : FS) (f : String) (h : H5File) (g : String) :
+    getFile (setFile fs f h) g = if f = g then some h else getFile fs g := by
+  unfold setFile
+  simp only [getFile]
+  by_cases hg : f = g
+  · simp [hg]
+  · simp only [hg, if_false]
+    rw [getFile_filter (fun x => decide (x ≠ f))]
+    have : g ≠ f := fun e => hg e.symm
+    simp [this]
+
+theorem lookupE_setFile (fs : FS) (f : String) (h : H5File) (g : String) (k : Path) :
+    lookupE (setFile fs f h) g k = if f = g then lookupK h.entries k else lookupE fs g k := by
+  unfold lookupE
+  rw [getFile_setFile]
+  by_cases hg : f = g <;> simp [hg]
+
+
+/-! ### link resolution: composition, monotonicity in the link budget and in the file system -/
+
+/-- the link follower `resolveN` uses at budget `n` -/
+def followN (fs : FS) : Nat → String → Path → Option Loc
+  | 0 => fun _ _ => none
+  | n + 1 => resolveN fs n
+
+theorem resolveN_eq (fs : FS) (n : Nat) (f : String) (p : Path) :
+    resolveN fs n f p = p.foldl (stepWith fs (followN fs n)) (start fs f) := by
+  cases n <;> rfl
+
+theorem resolveN_nil (fs : FS) (n : Nat) (f : String) : resolveN fs n f [] = start fs f := by
+  rw [resolveN_eq]; rfl
+
+theorem resolveN_snoc (fs : FS) (n : Nat) (f : String) (p : Path) (x : String) :
+    resolveN fs n f (p ++ [x]) = stepWith fs (followN fs n) (resolveN fs n f p) x := by
+  rw [resolveN_eq, resolveN_eq, List.foldl_append]; rfl
+
+theorem resolveN_append (fs : FS) (n : Nat) (f : String) (p q : Path) :
+    resolveN fs n f (p ++ q) = q.foldl (stepWith fs (followN fs n)) (resolveN fs n f p) := by
+  rw [resolveN_eq, resolveN_eq, List.foldl_append]
+
+theorem foldl_stepWith_none (fs : FS) (F : String → Path → Option Loc) (p : Path) :
+    p.foldl (stepWith fs F) none = none := by
+  induction p with
+  | nil => rfl
+  | cons x p ih => simpa [List.foldl_cons, stepWith] using ih
+
+/-- `fs'` contains everything `fs` contains -/
+def Sub (fs fs' : FS) : Prop :=
+  (∀ g, (getFile fs g).isSome → (getFile fs' g).isSome) ∧
+  ∀ g k e, lookupE fs g k = some e → lookupE fs' g k = some e
+
+theorem Sub.refl (fs : FS) : Sub fs fs := ⟨fun _ h => h, fun _ _ _ h => h⟩
+
+theorem Sub.trans {a b c : FS} (h1 : Sub a b) (h2 : Sub b c) : Sub a c :=
+  ⟨fun g h => h2.1 g (h1.1 g h), fun g k e h => h2.2 g k e (h1.2 g k e h)⟩
+
+theorem stepWith_mono {fs fs' : FS} {F G : String → Path → Option Loc}
+    (hlk : ∀ g k e, lookupE fs g k = some e → lookupE fs' g k = some e)
+    (hFG : ∀ g t l, F g t = some l → G g t = some l)
+    (acc : Option Loc) (x : String) (l : Loc)
+    (h : stepWith fs F acc x = some l) : stepWith fs' G acc x = some l := by
+  unfold stepWith at h ⊢
+  cases acc with
+  | none => simp at h
+  | some a =>
+    obtain ⟨f, P⟩ := a
+    simp only at h ⊢
+    cases hl : lookupE fs f (P ++ [x]) with
+    | none => simp [hl] at h
+    | some e =>
+      rw [hlk _ _ _ hl]
+      rw [hl] at h
+      cases e with
+      | group o a => exact h
+      | dataset c => exact h
+      | soft t => exact hFG _ _ _ h
+      | ext g t => exact hFG _ _ _ h
+
+theorem foldl_stepWith_mono {fs fs' : FS} {F G : String → Path → Option Loc}
+    (hlk : ∀ g k e, lookupE fs g k = some e → lookupE fs' g k = some e)
+    (hFG : ∀ g t l, F g t = some l → G g t = some l) :
+    ∀ (p : Path) (acc : Option Loc) (l : Loc),
+      p.foldl (stepWith fs F) acc = some l → p.foldl (stepWith fs' G) acc = some l := by
+  intro p
+  induction p with
+  | nil => intro acc l h; exact h
+  | cons x p ih =>
+    intro acc l h
+    simp only [List.foldl_cons] at h ⊢
+    cases hs : stepWith fs F acc x with
+    | none => rw [hs, foldl_stepWith_none] at h; simp at h
+    | some l' =>
+      rw [stepWith_mono hlk hFG acc x l' hs]
+      rw [hs] at h
+      exact ih _ _ h
+
+theorem start_sub {fs fs' : FS} (hs : Sub fs fs') (f : String) (l : Loc)
+    (h : start fs f = some l) : start fs' f = some l := by
+  unfold start at h ⊢
+  cases hg : getFile fs f with
+  | none => simp [hg] at h
+  | some hh =>
+    have := hs.1 f (by simp [hg])
+    cases hg' : getFile fs' f with
+    | none => simp [hg'] at this
+    | some _ => simpa [hg] using h
+
+theorem resolveN_mono {fs fs' : FS} (hs : Sub fs fs') :
+    ∀ (n m : Nat), n ≤ m → ∀ (f : String) (p : Path) (l : Loc),
+      resolveN fs n f p = some l → resolveN fs' m f p = some l := by
+  intro n
+  induction n with
+  | zero =>
+    intro m _ f p l h
+    rw [resolveN_eq] at h ⊢
+    cases hst : start fs f with
+    | none => rw [hst, foldl_stepWith_none] at h; simp at h
+    | some l0 =>
+      rw [start_sub hs f l0 hst]
+      rw [hst] at h
+      exact foldl_stepWith_mono hs.2 (by intro g t l' hh; simp [followN] at hh) p _ l h
+  | succ n ih =>
+    intro m hm f p l h
+    obtain ⟨m', rfl⟩ : ∃ m', m = m' + 1 := ⟨m - 1, by omega⟩
+    rw [resolveN_eq] at h ⊢
+    cases hst : start fs f with
+    | none => rw [hst, foldl_stepWith_none] at h; simp at h
+    | some l0 =>
+      rw [start_sub hs f l0 hst]
+      rw [hst] at h
+      exact foldl_stepWith_mono hs.2 (fun g t l' hh => ih m' (by omega) g t l' hh) p _ l h
+
+/-- `p` names the object at canonical location `l`, for some finite link budget -/
+def Resolves (fs : FS) (f : String) (p : Path) (l : Loc) : Prop := ∃ n, resolveN fs n f p = some l
+
+theorem Resolves.mono {fs fs' : FS} (hs : Sub fs fs') {f : String} {p : Path} {l : Loc}
+    (h : Resolves fs f p l) : Resolves fs' f p l := by
+  obtain ⟨n, hn⟩ := h
+  exact ⟨n, resolveN_mono hs n n (Nat.le_refl _) f p l hn⟩
+
+theorem Resolves.nil {fs : FS} {f : String} (h : (getFile fs f).isSome) : Resolves fs f [] (f, []) := by
+  refine ⟨0, ?_⟩
+  rw [resolveN_nil]; unfold start
+  cases hg : getFile fs f with
+  | none => simp [hg] at h
+  | some _ => rfl
+
+theorem Resolves.snoc_obj {fs : FS} {f : String} {p : Path} {g : String} {P : Path} {x : String}
+    (h : Resolves fs f p (g, P)) {e : Entry} (he : lookupE fs g (P ++ [x]) = some e)
+    (hobj : (∃ o a, e = .group o a) ∨ ∃ c, e = .dataset c) : Resolves fs f (p ++ [x]) (g, P ++ [x]) := by
+  obtain ⟨n, hn⟩ := h
+  refine ⟨n, ?_⟩
+  rw [resolveN_snoc, hn]
+  unfold stepWith
+  simp only [he]
+  rcases hobj with ⟨o, a, rfl⟩ | ⟨c, rfl⟩ <;> rfl
+
+theorem Resolves.snoc_soft {fs : FS} {f : String} {p : Path} {g : String} {P : Path} {x : String}
+    (h : Resolves fs f p (g, P)) {t : Path} (he : lookupE fs g (P ++ [x]) = some (.soft t))
+    {l : Loc} (ht : Resolves fs g t l) : Resolves fs f (p ++ [x]) l := by
+  obtain ⟨n, hn⟩ := h
+  obtain ⟨m, hm⟩ := ht
+  refine ⟨max n m + 1, ?_⟩
+  rw [resolveN_snoc, resolveN_mono (Sub.refl fs) n (max n m + 1) (by omega) f p _ hn]
+  unfold stepWith
+  simp only [he, followN]
+  exact resolveN_mono (Sub.refl fs) m (max n m) (by omega) g t l hm
+
+theorem Resolves.snoc_ext {fs : FS} {f : String} {p : Path} {g : String} {P : Path} {x : String}
+    (h : Resolves fs f p (g, P)) {g' : String} {t : Path} (he : lookupE fs g (P ++ [x]) = some (.ext g' t))
+    {l : Loc} (ht : Resolves fs g' t l) : Resolves fs f (p ++ [x]) l := by
+  obtain ⟨n, hn⟩ := h
+  obtain ⟨m, hm⟩ := ht
+  refine ⟨max n m + 1, ?_⟩
+  rw [resolveN_snoc, resolveN_mono (Sub.refl fs) n (max n m + 1) (by omega) f p _ hn]
+  unfold stepWith
+  simp only [he, followN]
+  exact resolveN_mono (Sub.refl fs) m (max n m) (by omega) g' t l hm
+
+/-- the content `Cooler(uri)` reads, for some finite link budget -/
+def Reads (fs : FS) (f : String) (p : Path) (c : Nat) : Prop := ∃ n, readN fs n f p = some c
+
+/-- what `readN` needs of the resolved location -/
+def ReadsAt (fs : FS) (l : Loc) (c : Nat) : Prop :=
+  coolerEntry (lookupE fs l.1 l.2) = true ∧
+  (∃ o a, lookupE fs l.1 (l.2 ++ ["pixels"]) = some (.group o a)) ∧
+  lookupE fs l.1 (l.2 ++ ["pixels", "count"]) = some (.dataset c)
+
+theorem reads_iff (fs : FS) (f : String) (p : Path) (c : Nat) :
+    Reads fs f p c ↔ ∃ l, Resolves fs f p l ∧ ReadsAt fs l c := by
+  constructor
+  · rintro ⟨n, hn⟩
+    unfold readN at hn
+    cases hr : resolveN fs n f p with
+    | none => simp [hr] at hn
+    | some l =>
+      obtain ⟨g, P⟩ := l
+      simp only [hr] at hn
+      refine ⟨(g, P), ⟨n, hr⟩, ?_⟩
+      by_cases hc : coolerEntry (lookupE fs g P) = true
+      · simp only [hc, if_true] at hn
+        refine ⟨hc, ?_⟩
+        cases h1 : lookupE fs g (P ++ ["pixels"]) with
+        | none => simp [h1] at hn
+        | some e1 =>
+          cases h2 : lookupE fs g (P ++ ["pixels", "count"]) with
+          | none => cases e1 <;> simp [h1, h2] at hn
+          | some e2 =>
+            cases e1 <;> cases e2 <;> simp [h1, h2] at hn
+            subst hn
+            exact ⟨⟨_, _, rfl⟩, rfl⟩
+      · simp [hc] at hn
+  · rintro ⟨⟨g, P⟩, ⟨n, hn⟩, hc, ⟨o, a, h1⟩, h2⟩
+    refine ⟨n, ?_⟩
+    unfold readN
+    simp only [hn]
+    simp only at hc h1 h2
+    simp [hc, h1, h2]
+
+/-! ### `mkdirP`: intermediate groups -/
+
+theorem lookupE_setFile_same (fs : FS) (f : String) (h : H5File) (k : Path) :
+    lookupE (setFile fs f h) f k = lookupK h.entries k := by
+  rw [lookupE_setFile]; simp
+
+theorem lookupE_setFile_other (fs : FS) (f : String) (h : H5File) (g : String) (k : Path) (hg : g ≠ f) :
+    lookupE (setFile fs f h) g k = lookupE fs g k := by
+  rw [lookupE_setFile]
+  have : ¬ f = g := fun e => hg e.symm
+  simp [this]
+
+/-- entries of `h` are kept by `h'` -/
+def SubE (h h' : H5File) : Prop := ∀ k e, lookupK h.entries k = some e → lookupK h'.entries k = some e
+
+theorem sub_setFile (fs : FS) (f : String) {h h' : H5File} (hs : SubE h h') :
+    Sub (setFile fs f h) (setFile fs f h') := by
+  constructor
+  · intro g hg
+    rw [getFile_setFile] at hg ⊢
+    by_cases e : f = g <;> simp [e] at hg ⊢
+    exact hg
+  · intro g k e hk
+    rw [lookupE_setFile] at hk ⊢
+    by_cases e' : f = g <;> simp [e'] at hk ⊢
+    · exact hs _ _ hk
+    · exact hk
+
+def IsGroup (e : Option Entry) : Prop := ∃ o a, e = some (.group o a)
+
+theorem mkdirP_spec (fs : FS) (f : String) :
+    ∀ (q : List String) (h : H5File) (cur q0 : Path) (h1 : H5File) (P : Path),
+      Sub fs (setFile fs f h) →
+      Resolves (setFile fs f h) f q0 (f, cur) →
+      IsGroup (lookupK h.entries cur) →
+      mkdirP fs f h cur q = .ok (h1, P) →
+      SubE h h1 ∧
+      (∀ k e, lookupK h1.entries k = some e → lookupK h.entries k = some e ∨
+        (lookupK h.entries k = none ∧ ∃ o, e = .group o [])) ∧
+      Resolves (setFile fs f h1) f (q0 ++ q) (f, P) ∧
+      IsGroup (lookupK h1.entries P) := by
+  intro q
+  induction q with
+  | nil =>
+    intro h cur q0 h1 P _ hcur hgrp hm
+    simp only [mkdirP, Except.ok.injEq, Prod.mk.injEq] at hm
+    obtain ⟨rfl, rfl⟩ := hm
+    exact ⟨fun _ _ hk => hk, fun _ _ hk => Or.inl hk, by simpa using hcur, hgrp⟩
+  | cons x rest ih =>
+    intro h cur q0 h1 P hsub hcur hgrp hm
+    rw [mkdirP] at hm
+    cases hl : lookupK h.entries (cur ++ [x]) with
+    | none =>
+      simp only [hl] at hm
+      by_cases hsh : sharedAt h.entries cur = true
+      · simp [hsh] at hm
+      · simp only [hsh] at hm
+        -- the new file
+        have hsubE : SubE h ⟨setEntry h.entries (cur ++ [x]) (.group h.next []), h.next + 1⟩ := by
+          intro k e hk
+          simp only [lookupK_setEntry]
+          by_cases hk' : cur ++ [x] = k
+          · subst hk'; rw [hl] at hk; simp at hk
+          · simp [hk', hk]
+        have hS := sub_setFile fs f hsubE
+        have hcur' : Resolves (setFile fs f ⟨setEntry h.entries (cur ++ [x]) (.group h.next []), h.next + 1⟩) f
+            (q0 ++ [x]) (f, cur ++ [x]) := by
+          refine Resolves.snoc_obj (hcur.mono hS) (e := .group h.next []) ?_ (Or.inl ⟨_, _, rfl⟩)
+          rw [lookupE_setFile_same]; simp [lookupK_setEntry]
+        have hgrp' : IsGroup (lookupK (setEntry h.entries (cur ++ [x]) (.group h.next [])) (cur ++ [x])) :=
+          ⟨h.next, [], by simp [lookupK_setEntry]⟩
+        obtain ⟨a1, a2, a3, a4⟩ := ih _ _ (q0 ++ [x]) h1 P (hsub.trans hS) hcur' hgrp' (by simpa using hm)
+        refine ⟨fun k e hk => a1 k e (hsubE k e hk), ?_, by simpa using a3, a4⟩
+        intro k e hk
+        rcases a2 k e hk with h' | ⟨h', o, rfl⟩
+        · simp only [lookupK_setEntry] at h'
+          by_cases hk' : cur ++ [x] = k
+          · subst hk'
+            simp at h'
+            exact Or.inr ⟨hl, _, h'.symm⟩
+          · simp [hk'] at h'
+            exact Or.inl h'
+        · simp only [lookupK_setEntry] at h'
+          by_cases hk' : cur ++ [x] = k
+          · simp [hk'] at h'
+          · simp [hk'] at h'
+            exact Or.inr ⟨h', _, rfl⟩
+    | some e =>
+      simp only [hl] at hm
+      cases e with
+      | group o a =>
+        simp only at hm
+        have hcur' : Resolves (setFile fs f h) f (q0 ++ [x]) (f, cur ++ [x]) := by
+          refine Resolves.snoc_obj hcur (e := .group o a) ?_ (Or.inl ⟨_, _, rfl⟩)
+          rw [lookupE_setFile_same]; exact hl
+        obtain ⟨a1, a2, a3, a4⟩ := ih h (cur ++ [x]) (q0 ++ [x]) h1 P hsub hcur' ⟨_, _, hl⟩ hm
+        exact ⟨a1, a2, by simpa using a3, a4⟩
+      | dataset c => simp at hm
+      | ext g t => simp at hm
+      | soft t =>
+        simp only at hm
+        cases hr : resolve fs f t with
+        | none => simp [hr] at hm
+        | some l =>
+          obtain ⟨g, Q⟩ := l
+          simp only [hr] at hm
+          by_cases hg : g = f
+          · subst hg
+            simp only [if_true] at hm
+            cases hq : lookupK h.entries Q with
+            | none => simp [hq] at hm
+            | some eq =>
+              cases eq with
+              | group o a =>
+                simp only [hq] at hm
+                have hcur' : Resolves (setFile fs g h) g (q0 ++ [x]) (g, Q) := by
+                  refine Resolves.snoc_soft hcur (t := t) ?_ ?_
+                  · rw [lookupE_setFile_same]; exact hl
+                  · exact Resolves.mono hsub ⟨LINKFUEL, hr⟩
+                obtain ⟨a1, a2, a3, a4⟩ := ih h Q (q0 ++ [x]) h1 P hsub hcur' ⟨_, _, hq⟩ hm
+                exact ⟨a1, a2, by simpa using a3, a4⟩
+              | dataset c => simp [hq] at hm
+              | soft t' => simp [hq] at hm
+              | ext g' t' => simp [hq] at hm
+          · simp [hg] at hm
+
+/-! ### well-formedness: every proper prefix of a stored key is a group -/
+
+def WFFile (h : H5File) : Prop :=
+  IsGroup (lookupK h.entries []) ∧
+  ∀ k e, lookupK h.entries k = some e → ∀ q, under q k = true → q ≠ k → IsGroup (lookupK h.entries q)
+
+def WF (fs : FS) : Prop := ∀ f h, getFile fs f = some h → WFFile h
+
+/-- relative version for a region (keys relative to the region's root) -/
+def RelWF (new : Entries) : Prop :=
+  ∀ r e, lookupK new r = some e → ∀ q, under q r = true → q ≠ r → IsGroup (lookupK new q)
+
+theorem wf_absent_under {h : H5File} (hw : WFFile h) {D k : Path} (hD : lookupK h.entries D = none)
+    (hu : under D k = true) : lookupK h.entries k = none := by
+  cases hk : lookupK h.entries k with
+  | none => rfl
+  | some e =>
+    by_cases hDk : D = k
+    · subst hDk; rw [hD] at hk; simp at hk
+    · obtain ⟨o, a, hh⟩ := hw.2 k e hk D hu hDk
+      rw [hD] at hh; simp at hh
+
+theorem wf_emptyFile : WFFile emptyFile := by
+  refine ⟨⟨0, [], by simp [emptyFile, lookupK]⟩, ?_⟩
+  intro k e hk q hq hne
+  simp only [emptyFile, lookupK] at hk
+  by_cases h0 : ([] : Path) = k
+  · subst h0
+    cases q with
+    | nil => exact absurd rfl hne
+    | cons a q => simp [under] at hq
+  · simp [h0] at hk
+
+theorem prefix_of_snoc {q cur : Path} {x : String} (hq : under q (cur ++ [x]) = true) (hne : q ≠ cur ++ [x]) :
+    under q cur = true := by
+  obtain ⟨r, hr⟩ := (under_iff _ _).1 hq
+  rcases List.eq_nil_or_concat r with rfl | ⟨r', y, rfl⟩
+  · simp at hr; exact absurd hr.symm hne
+  · simp only [List.concat_eq_append] at hr
+    rw [← List.append_assoc] at hr
+    have := List.append_inj' hr (by simp)
+    exact (under_iff _ _).2 ⟨r', this.1⟩
+
+theorem wf_setEntry_group {h : H5File} (hw : WFFile h) {k : Path} {o : Nat} {a : List (String × String)} {nx : Nat}
+    (hpre : ∀ q, under q k = true → q ≠ k → IsGroup (lookupK h.entries q)) :
+    WFFile ⟨setEntry h.entries k (.group o a), nx⟩ := by
+  constructor
+  · simp only [lookupK_setEntry]
+    by_cases hk : k = []
+    · exact ⟨o, a, by simp [hk]⟩
+    · simpa [hk] using hw.1
+  · intro k' e hk' q hq hne
+    simp only [lookupK_setEntry] at hk' ⊢
+    by_cases hqk : k = q
+    · exact ⟨o, a, by simp [hqk]⟩
+    · simp only [hqk, if_false]
+      by_cases hkk : k = k'
+      · subst hkk; exact hpre q hq hne
+      · simp only [hkk, if_false] at hk'
+        exact hw.2 k' e hk' q hq hne
+
+theorem relWF_getRegion {h : H5File} (hw : WFFile h) (S : Path) : RelWF (getRegion h.entries S) := by
+  intro r e hr q hq hne
+  rw [lookupK_getRegion] at hr ⊢
+  obtain ⟨s, rfl⟩ := (under_iff _ _).1 hq
+  refine hw.2 _ e hr (S ++ q) ?_ ?_
+  · exact (under_iff _ _).2 ⟨s, by simp⟩
+  · intro h'; exact hne (List.append_cancel_left h')
+
+theorem relWF_shift {new : Entries} (d : Nat) (hn : RelWF new) : RelWF (shiftOids d new) := by
+  intro r e hr q hq hne
+  rw [lookupK_shiftOids] at hr ⊢
+  cases hr' : lookupK new r with
+  | none => simp [hr'] at hr
+  | some e' =>
+    obtain ⟨o, a, hh⟩ := hn r e' hr' q hq hne
+    exact ⟨o + d, a, by simp [hh, Entry.shift]⟩
+
+theorem relWF_single (e : Entry) : RelWF [([], e)] := by
+  intro r e' hr q hq hne
+  simp only [lookupK] at hr
+  by_cases h0 : ([] : Path) = r
+  · subst h0
+    cases q with
+    | nil => exact absurd rfl hne
+    | cons a q => simp [under] at hq
+  · simp [h0] at hr
+
+theorem wf_putRegion {h : H5File} (hw : WFFile h) {P : Path} {x : String} {new : Entries} {nx : Nat}
+    (hP : IsGroup (lookupK h.entries P)) (hn : RelWF new) :
+    WFFile ⟨putRegion h.entries (P ++ [x]) new, nx⟩ := by
+  have hroot : under (P ++ [x]) [] = false := by
+    cases P <;> simp [under]
+  constructor
+  · simp only [lookupK_putRegion, hroot]; exact hw.1
+  · intro k e hk q hq hne
+    simp only [lookupK_putRegion] at hk ⊢
+    by_cases hDq : under (P ++ [x]) q = true
+    · -- q inside the new region: so is k
+      have hDk : under (P ++ [x]) k = true := under_trans hDq hq
+      simp only [hDk, if_true] at hk
+      simp only [hDq, if_true]
+      obtain ⟨rq, rfl⟩ := (under_iff _ _).1 hDq
+      obtain ⟨s, rfl⟩ := (under_iff _ _).1 hq
+      have e1 : ((P ++ [x]) ++ rq ++ s).drop (P ++ [x]).length = rq ++ s := by
+        rw [List.append_assoc, List.drop_left]
+      have e2 : ((P ++ [x]) ++ rq).drop (P ++ [x]).length = rq := List.drop_left
+      rw [e1] at hk; rw [e2]
+      exact hn _ e hk rq (under_append _ _) (fun h' => hne (by
+        have : s = [] := by simpa using h'
+        simp [this]))
+    · simp only [hDq]
+      by_cases hDk : under (P ++ [x]) k = true
+      · -- k new, q a proper prefix of the region's root: q is a prefix of P
+        obtain ⟨rk, rfl⟩ := (under_iff _ _).1 hDk
+        obtain ⟨s, hs⟩ := (under_iff _ _).1 hq
+        -- q and P ++ [x] are both prefixes of the same list; q is not under P ++ [x], so q is a proper prefix of it
+        have hqP : under q (P ++ [x]) = true := by
+          have h1 : q <+: (P ++ [x]) ++ rk := ⟨s, hs.symm⟩
+          have h2 : (P ++ [x]) <+: (P ++ [x]) ++ rk := ⟨rk, rfl⟩
+          rcases List.prefix_or_prefix_of_prefix h1 h2 with h3 | h3
+          · obtain ⟨t, ht⟩ := h3; exact (under_iff _ _).2 ⟨t, ht.symm⟩
+          · obtain ⟨t, ht⟩ := h3
+            exact absurd ((under_iff _ _).2 ⟨t, ht.symm⟩) hDq
+        have hqne : q ≠ P ++ [x] := fun h' => hDq (h' ▸ under_refl _)
+        have hqP' : under q P = true := prefix_of_snoc hqP hqne
+        by_cases hqe : q = P
+        · subst hqe; simpa using hP
+        · obtain ⟨o, a, hPe⟩ := hP
+          simpa using hw.2 P _ hPe q hqP' hqe
+      · simp only [hDk] at hk
+        simpa using hw.2 k e hk q hq hne
+
+theorem wf_removeUnder {h : H5File} (hw : WFFile h) {L : Path} (hL : L ≠ []) {nx : Nat} :
+    WFFile ⟨removeUnder L h.entries, nx⟩ := by
+  have hroot : under L [] = false := by
+    cases L with
+    | nil => exact absurd rfl hL
+    | cons a L => simp [under]
+  constructor
+  · simp only [lookupK_removeUnder, hroot]; exact hw.1
+  · intro k e hk q hq hne
+    simp only [lookupK_removeUnder] at hk ⊢
+    by_cases hLk : under L k = true
+    · simp [hLk] at hk
+    · simp only [hLk] at hk
+      have hLq : ¬ under L q = true := fun h' => hLk (under_trans h' hq)
+      simp only [hLq]
+      simpa using hw.2 k e hk q hq hne
+
+theorem wf_setFile {fs : FS} (hw : WF fs) {f : String} {h : H5File} (hh : WFFile h) : WF (setFile fs f h) := by
+  intro g h' hg
+  rw [getFile_setFile] at hg
+  by_cases e : f = g
+  · simp [e] at hg; subst hg; exact hh
+  · simp [e] at hg; exact hw g h' hg
+
+/-! ### `mkdirP` keeps files well-formed; `placeAt` -/
+
+theorem mkdirP_wf (fs : FS) (f : String) :
+    ∀ (q : List String) (h : H5File) (cur : Path) (h1 : H5File) (P : Path),
+      WFFile h → IsGroup (lookupK h.entries cur) → mkdirP fs f h cur q = .ok (h1, P) → WFFile h1 := by
+  intro q
+  induction q with
+  | nil =>
+    intro h cur h1 P hw _ hm
+    simp only [mkdirP, Except.ok.injEq, Prod.mk.injEq] at hm
+    obtain ⟨rfl, rfl⟩ := hm
+    exact hw
+  | cons x rest ih =>
+    intro h cur h1 P hw hgrp hm
+    rw [mkdirP] at hm
+    cases hl : lookupK h.entries (cur ++ [x]) with
+    | none =>
+      simp only [hl] at hm
+      by_cases hsh : sharedAt h.entries cur = true
+      · simp [hsh] at hm
+      · simp only [hsh] at hm
+        have hw' : WFFile ⟨setEntry h.entries (cur ++ [x]) (.group h.next []), h.next + 1⟩ := by
+          apply wf_setEntry_group hw
+          intro q hq hne
+          have hqc := prefix_of_snoc hq hne
+          by_cases hqe : q = cur
+          · subst hqe; exact hgrp
+          · obtain ⟨o, a, hc⟩ := hgrp
+            exact hw.2 cur _ hc q hqc hqe
+        exact ih _ _ h1 P hw' ⟨h.next, [], by simp [lookupK_setEntry]⟩ (by simpa using hm)
+    | some e =>
+      simp only [hl] at hm
+      cases e with
+      | group o a => exact ih h _ h1 P hw ⟨_, _, hl⟩ hm
+      | dataset c => simp at hm
+      | ext g t => simp at hm
+      | soft t =>
+        simp only at hm
+        cases hr : resolve fs f t with
+        | none => simp [hr] at hm
+        | some l =>
+          obtain ⟨g, Q⟩ := l
+          simp only [hr] at hm
+          by_cases hg : g = f
+          · simp only [hg, if_true] at hm
+            cases hq : lookupK h.entries Q with
+            | none => simp [hq] at hm
+            | some eq =>
+              cases eq with
+              | group o a =>
+                simp only [hq] at hm
+                exact ih h Q h1 P hw ⟨_, _, hq⟩ hm
+              | dataset c => simp [hq] at hm
+              | soft t' => simp [hq] at hm
+              | ext g' t' => simp [hq] at hm
+          · simp [hg] at hm
+
+theorem sub_setFile_self {fs : FS} {f : String} {h : H5File} (hg : getFile fs f = some h) :
+    Sub fs (setFile fs f h) := by
+  constructor
+  · intro g hs
+    rw [getFile_setFile]
+    by_cases e : f = g <;> simp [e, hs]
+  · intro g k e hk
+    rw [lookupE_setFile]
+    by_cases e' : f = g
+    · subst e'; simp only [if_true]
+      unfold lookupE at hk; rw [hg] at hk; exact hk
+    · simp [e', hk]
+
+theorem dropLast_append_getLast {dp : Path} {x : String} (h : dp.getLast? = some x) :
+    dp = dp.dropLast ++ [x] := by
+  rcases List.eq_nil_or_concat dp with rfl | ⟨l, y, rfl⟩
+  · simp at h
+  · simp only [List.concat_eq_append] at h ⊢
+    simp only [List.getLast?_append, List.getLast?_singleton, Option.some_or] at h
+    simp at h
+    subst h
+    simp
+
+/-- what a successful `placeAt` did -/
+theorem placeAt_ok {fs : FS} {f : String} {dp : Path} {new : H5File → Entries × Nat} {ex : ErrClass}
+    {fs' : FS} (h : placeAt fs f dp new ex = (fs', .ok)) :
+    ∃ h0 h1 P x, getFile fs f = some h0 ∧ dp = dp.dropLast ++ [x] ∧
+      mkdirP fs f h0 [] dp.dropLast = .ok (h1, P) ∧ lookupK h1.entries (P ++ [x]) = none ∧
+      fs' = setFile fs f ⟨putRegion h1.entries (P ++ [x]) (new h1).1, (new h1).2⟩ := by
+  unfold placeAt at h
+  cases hg : getFile fs f with
+  | none => simp [hg] at h
+  | some h0 =>
+    simp only [hg] at h
+    cases hx : dp.getLast? with
+    | none => simp [hx] at h
+    | some x =>
+      simp only [hx] at h
+      cases hm : mkdirP fs f h0 [] dp.dropLast with
+      | error o =>
+        simp only [hm, Prod.mk.injEq] at h
+        -- the outcome of a failed `mkdirP` is never `ok`
+        exfalso
+        obtain ⟨_, h2⟩ := h
+        subst h2
+        -- mkdirP never returns `.error .ok`
+        have : ∀ (q : List String) (h : H5File) (cur : Path), mkdirP fs f h cur q ≠ .error .ok := by
+          intro q
+          induction q with
+          | nil => intro h cur; simp [mkdirP]
+          | cons y rest ih =>
+            intro h cur
+            rw [mkdirP]
+            cases hl : lookupK h.entries (cur ++ [y]) with
+            | none =>
+              simp only
+              by_cases hsh : sharedAt h.entries cur = true
+              · simp [hsh]
+              · simp only [hsh]; exact ih _ _
+            | some e =>
+              cases e with
+              | group o a => exact ih _ _
+              | dataset c => simp
+              | ext g t => simp
+              | soft t =>
+                simp only
+                cases hr : resolve fs f t with
+                | none => simp
+                | some l =>
+                  obtain ⟨g, Q⟩ := l
+                  simp only
+                  by_cases hgf : g = f
+                  · simp only [hgf, if_true]
+                    cases hq : lookupK h.entries Q with
+                    | none => simp
+                    | some eq => cases eq <;> simp <;> exact ih _ _
+                  · simp [hgf]
+        exact this _ _ _ hm
+      | ok r =>
+        obtain ⟨h1, P⟩ := r
+        simp only [hm] at h
+        unfold linkRegion at h
+        cases hl : lookupK h1.entries (P ++ [x]) with
+        | some e => simp [hl] at h
+        | none =>
+          simp only [hl] at h
+          by_cases hsh : sharedAt h1.entries P = true
+          · simp [hsh] at h
+          · simp only [hsh] at h
+            simp only [Prod.mk.injEq, and_true] at h
+            exact ⟨h0, h1, P, x, rfl, dropLast_append_getLast hx, hm, hl, h.symm⟩
+
+/-- consequences of a successful `placeAt` on a well-formed file system -/
+theorem placeAt_facts {fs : FS} (hw : WF fs) {f : String} {dp : Path} {new : H5File → Entries × Nat}
+    {ex : ErrClass} {fs' : FS} (h : placeAt fs f dp new ex = (fs', .ok)) :
+    ∃ h1 P x, dp = dp.dropLast ++ [x] ∧
+      Sub fs fs' ∧
+      Resolves fs' f dp.dropLast (f, P) ∧
+      (∀ r, lookupE fs' f (P ++ [x] ++ r) = lookupK (new h1).1 r) ∧
+      (∀ g k e, lookupE fs' g k = some e → lookupE fs g k = some e ∨
+          (g = f ∧ (under (P ++ [x]) k = true ∨ ∃ o, e = .group o []))) ∧
+      (RelWF (new h1).1 → WF fs') ∧
+      destOf fs f dp = some (P ++ [x]) ∧
+      lookupE fs f (P ++ [x]) = none := by
+  obtain ⟨h0, h1, P, x, hg, hdp, hm, hl, rfl⟩ := placeAt_ok h
+  have hw0 : WFFile h0 := hw f h0 hg
+  have hsub0 := sub_setFile_self hg
+  obtain ⟨a1, a2, a3, a4⟩ := mkdirP_spec fs f dp.dropLast h0 [] [] h1 P hsub0
+    (Resolves.nil (by rw [getFile_setFile]; simp)) hw0.1 hm
+  have hw1 : WFFile h1 := mkdirP_wf fs f _ h0 [] h1 P hw0 hw0.1 hm
+  -- nothing lies under the fresh name
+  have hfresh : ∀ k, under (P ++ [x]) k = true → lookupK h1.entries k = none :=
+    fun k hk => wf_absent_under hw1 hl hk
+  have hsubE : SubE h1 ⟨putRegion h1.entries (P ++ [x]) (new h1).1, (new h1).2⟩ := by
+    intro k e hk
+    simp only [lookupK_putRegion]
+    by_cases hu : under (P ++ [x]) k = true
+    · rw [hfresh k hu] at hk; simp at hk
+    · simp [hu, hk]
+  have hS1 : Sub fs (setFile fs f h1) := hsub0.trans (sub_setFile fs f a1)
+  have hS2 := sub_setFile fs f hsubE
+  refine ⟨h1, P, x, hdp, hS1.trans hS2, ?_, ?_, ?_, ?_, ?_, ?_⟩
+  · simpa using a3.mono hS2
+  · intro r
+    rw [lookupE_setFile_same, lookupK_putRegion_under]
+  · intro g k e hk
+    rw [lookupE_setFile] at hk
+    by_cases hgf : f = g
+    · subst hgf
+      simp only [if_true, lookupK_putRegion] at hk
+      by_cases hu : under (P ++ [x]) k = true
+      · exact Or.inr ⟨rfl, Or.inl hu⟩
+      · simp only [hu] at hk
+        rcases a2 k e (by simpa using hk) with h' | ⟨_, o, rfl⟩
+        · left; unfold lookupE; rw [hg]; exact h'
+        · exact Or.inr ⟨rfl, Or.inr ⟨o, rfl⟩⟩
+    · simp only [hgf, if_false] at hk; exact Or.inl hk
+  · intro hn
+    exact wf_setFile hw (wf_putRegion hw1 a4 hn)
+  · unfold destOf
+    rw [hg]
+    have : dp.getLast? = some x := by rw [hdp]; simp
+    simp [this, hm]
+  · unfold lookupE; rw [hg]
+    cases hk : lookupK h0.entries (P ++ [x]) with
+    | none => rfl
+    | some e => rw [a1 _ _ hk] at hl; simp at hl
 end Cooler.C15
